@@ -157,7 +157,8 @@ def gen_history(schema, ty, rnd, n, emphasis=None):
                 if v.get("k") == "msg" and v.get("fresh"):
                     continue
                 kw.append([f["name"], v])
-            ops.append({"op": rnd.choice(["fromdict_cls", "fromdict_inst"]), "kw": kw})
+            # (nulls: every field absent from the document is spelled out as null - null means absent, it selects no oneof member)
+            ops.append({"op": rnd.choice(["fromdict_cls", "fromdict_inst"]), "kw": kw, "nulls": rnd.random() < .4})
         elif c < w_set + .35:
             ops.append({"op": rnd.choice(["copy", "deepcopy", "pickle"])})
         elif c < w_set + .40:
@@ -233,6 +234,15 @@ def _poke(schema, sub, ty):
             return
 
 
+def with_nulls(schema, ty, d):
+    d = dict(d)
+    for f in schema["types"][ty]:
+        key = dyn.py(f).rstrip("_")
+        if key not in d and dyn.py(f) not in d:
+            d[key] = None
+    return d
+
+
 def kw_to_dict(schema, C, ty, kw):
     """the dict a JSON producer would hand to from_dict for these keyword values (snake_case keys): built with
     betterproto's own to_dict of a message constructed from kw -- only used to *drive* from_dict; what from_dict
@@ -278,11 +288,11 @@ def run_history(schema, C, ty, ops, R=None, reread=False):
             elif k == "fromdict_cls":
                 d = kw_to_dict(schema, C, ty, op["kw"])
                 e["kw"] = [x for x in op["kw"] if _in_dict(d, x[0])]
-                m = C[ty].from_dict(d)
+                m = C[ty].from_dict(with_nulls(schema, ty, d) if op.get("nulls") else d)
             elif k == "fromdict_inst":
                 d = kw_to_dict(schema, C, ty, op["kw"])
                 e["kw"] = [x for x in op["kw"] if _in_dict(d, x[0])]
-                m.from_dict(d)
+                m.from_dict(with_nulls(schema, ty, d) if op.get("nulls") else d)
             elif k == "bytes":
                 bytes(m)
             elif k == "len":
